@@ -132,6 +132,19 @@ def low(b):
 
 
 def enum_text(x):
+    # two iterators over the same object must not share a cursor, and an exhausted one stays exhausted
+    for make in (x.domain, x.image, x.relation, x.support):
+        full = list(make())
+        i1, i2 = iter(make()), iter(make())
+        inter = []
+        for _ in range(len(full)):
+            a = next(i1)
+            b = next(i2)
+            if a != b:
+                return "iterators-interfere"
+            inter.append(a)
+        if inter != full or next(i1, "END") != "END" or next(i1, "END") != "END":
+            return "iterators-interfere"
     dom = ",".join(pt(p) for p in x.domain())
     img = "".join("1" if b else "0" for b in x.image())
     rel = ",".join(f"{pt(p)}:{int(b)}" for p, b in x.relation())
